@@ -974,13 +974,14 @@ def inference_cause(rops, failure):
             except Exception:  # noqa: BLE001
                 continue
             if a and not prop_holds_fp(prop, w):
-                if o.kind == "divide":
-                    try:
-                        d = eval_fp(o.operands[1], envf, check=False)
-                        if numpy.isinf(d):
-                            return INF_DIV
-                    except Undefined:
-                        pass
+                for sub in sub_exprs(o):
+                    if sub.kind == "divide":
+                        try:
+                            d = eval_fp(sub.operands[1], envf, check=False)
+                            if not isinstance(d, (bool, numpy.bool_)) and numpy.isinf(d):
+                                return INF_DIV
+                        except Undefined:
+                            pass
                 return f"infer-fp:_is_{prop}:{o.kind}"
     return None
 
